@@ -15,12 +15,12 @@ def sign1 (x : Rat) : Int := if x > 0 then 1 else if x = 0 then 0 else -1
 
 /-- `Round(N, digits)` with the value `e` that `floor(log10(|N|))` returned as a parameter
     (a rounded `log10` may return a neighbour of the exact exponent next to a power of ten:
-    `Admissible`).  As coded: zero test, then the `digits > 7` guard, then
+    `Admissible`).  As coded (after 710b478): the `digits > 7` guard, then the zero test, then
     `sign · (floor(|N|·10^(−e)·10^(digits−1) + 0.5) · 10^(−digits+1)) · 10^e`.
     `digits = 0` is outside the model (`digits − 1` wraps in `unsigned`); the driver answers `undef`. -/
 def roundSig (N : Rat) (d : Nat) (e : Int) : Except Err Rat :=
-  if N = 0 then .ok 0
-  else if d > 7 then .error .diag
+  if d > 7 then .error .diag
+  else if N = 0 then .ok 0
   else
     let sign : Rat := (sign1 N : Int)
     let a := N * sign
